@@ -2,5 +2,3 @@ import SctpVerif.GenPrelude
 import SctpVerif.Gen.Consts
 import SctpVerif.Gen.Funcs
 import SctpVerif.Gen.Facts
-import SctpVerif.Model.Rto
-import SctpVerif.Model.Timer
